@@ -217,8 +217,13 @@ func UpdateCase(r *rand.Rand, name string, o UpdateOpts) *Case {
 	// (an inline T -> *U position next to it shows whether it does)
 	defLine := !unnamedSource && r.Intn(6) == 0
 	if defLine {
-		sS.Fields = append(sS.Fields, F("DefP", Slice(Basic("int"))))
-		tS.Fields = append(tS.Fields, F("DefP", Ptr(Slice(Basic("int")))))
+		sS.Fields = append(sS.Fields, F("DefP", Slice(Basic("int"))), F("DefQ", Map(Basic("string"), Ptr(Basic("int")))))
+		tS.Fields = append(tS.Fields, F("DefP", Ptr(Slice(Basic("int")))), F("DefQ", Map(Basic("string"), Ptr(Basic("int")))))
+		if r.Intn(2) == 0 {
+			// ... and default:update in effect (it has nothing to update here)
+			convLines = append(convLines, "default:update")
+			c.Feature("defaultupdateline", "true")
+		}
 		methLines = append(methLines, "default NewDef")
 		c.Feature("defaultline", "true")
 	}
